@@ -143,8 +143,17 @@ def team_cases(draw):
     for c in cars.values():
         if not c["bases"]:
             c["vars_section"] = bool(c["vars"]) or draw(st.booleans())
+    # cars whose variables all come from their config bases (no [variables] section at all, as rally-teams' hook-only mixins): the
+    # command-line parameters are then the only variables a car definition contributes
+    bare = draw(st.integers(0, 9)) == 0
+    if bare:
+        for c in selection:
+            cars[c]["vars"] = {}
+            cars[c]["vars_section"] = False
 
     params = draw(st.none() | st.just({}) | _vars(pool, 3) | _vars(pool, 3) | _vars(pool, 3))
+    if bare and not params:
+        params = {draw(st.sampled_from(pool)) if pool else "heap_size": draw(ini_value)}
     if params:
         params = {k: (draw(param_value) if draw(st.booleans()) else v) for k, v in params.items()}
 
@@ -157,6 +166,8 @@ def team_cases(draw):
     # mandatory variables that provisioner.local() reads before a provisioner exists: always defined somewhere
     jdk = {"runtime.jdk": draw(st.sampled_from(["21", "17,11", "8"])), "runtime.jdk.bundled": draw(st.sampled_from(["true", "false"]))}
     where = draw(st.sampled_from(["base", "car", "params"])) if used_bases else "car"
+    if bare:
+        where = draw(st.sampled_from(["base", "params"])) if used_bases else "params"
     if where == "base":
         b = bases[draw(st.sampled_from(used_bases))]
         b["vars"] = dict(b["vars"] or {}, **jdk)
@@ -174,7 +185,7 @@ def team_cases(draw):
             w = draw(st.sampled_from(["base", "car", "car", "params", "params"]))
             if w == "base" and used_bases:
                 data_paths["bases"][draw(st.sampled_from(used_bases))] = draw(_data_spec())
-            elif w == "car":
+            elif w == "car" and not bare:
                 data_paths["cars"][draw(st.sampled_from(selection))] = draw(_data_spec())
             elif w == "params":
                 if draw(st.sampled_from([True, False, False])):
